@@ -525,13 +525,33 @@ func (c *c17Checker) runScenario(m *c17Module, sc c17Scenario) {
 			for i, n := range names {
 				if i%3 == 0 {
 					f := filepath.Join(out, n)
-					if i%2 == 0 {
+					cur, _ := os.ReadFile(f)
+					// the ways an existing file can differ from the translation: other content, a longer file
+					// with the translation as its prefix, an empty file, a strict prefix of the translation (an
+					// interrupted write, or a source file that has since grown), one byte short, one byte changed
+					switch (i / 3) % 6 {
+					case 0:
 						os.WriteFile(f, []byte("(* stale *)\n"), 0o644)
-					} else {
+					case 1:
 						fh, _ := os.OpenFile(f, os.O_APPEND|os.O_WRONLY, 0)
 						fh.WriteString("\n(* stale tail *)\n")
 						fh.Close()
+					case 2:
+						os.WriteFile(f, nil, 0o644)
+					case 3:
+						os.WriteFile(f, cur[:len(cur)/2], 0o644)
+					case 4:
+						if len(cur) > 0 {
+							os.WriteFile(f, cur[:len(cur)-1], 0o644)
+						}
+					case 5:
+						if len(cur) > 10 {
+							mod := append([]byte{}, cur...)
+							mod[len(mod)/2] ^= 1
+							os.WriteFile(f, mod, 0o644)
+						}
 					}
+					r.Count(fmt.Sprintf("stale_form_%d", (i/3)%6), 1)
 					expectTouched[n] = true
 				}
 			}
@@ -734,6 +754,9 @@ func (c *c17Checker) runScenario(m *c17Module, sc c17Scenario) {
 			if err != nil {
 				viol("ignore-errors-partial-file-unreadable", fmt.Sprintf("the partial file %s is not readable by Coq's rules: %v", rel, err))
 				continue
+			}
+			if strings.Count(src, "\nSection code.") != strings.Count(src, "\nEnd code.") {
+				viol("ignore-errors-partial-file-section-not-closed", fmt.Sprintf("the partial file %s opens `Section code.` %d times and closes it %d times", rel, strings.Count(src, "\nSection code."), strings.Count(src, "\nEnd code.")))
 			}
 			want := map[string]bool{}
 			for _, n := range p.GoodDefs {
